@@ -38,7 +38,7 @@ NCHUNK = 6
 
 def floors(tier):
     return {'crash-points': 60, 'followups:judged': 120, 'raise-points': 20,
-            'double-crash-points': 15,
+            'double-crash-points': 15, 'io-error-points': 30,
             'distinct_nontrivial': 30}
 
 
@@ -55,7 +55,9 @@ def cases(tier, seed):
                            'double': ('all' if tier == 'thorough' else
                                       'window' if backend == 'make' else None)
                            if s in ('new-file', 'removed-file') else None,
-                           'partial': tier == 'thorough', 'raise_kinds':
+                           'partial': tier == 'thorough',
+                           'io_errors': 'all' if tier == 'thorough' else 'enospc',
+                           'raise_kinds':
                            ['ENOSPC', 'RuntimeError', 'KeyboardInterrupt']
                            if tier == 'thorough' else ['ENOSPC', 'KeyboardInterrupt']}
 
@@ -384,6 +386,44 @@ def run_case(case):
                                      os.path.basename(e2['path'])]
                         follow_ups('double-crash', d2,
                                    [scenario, backend, case['pkgconf']] + d2, True)
+        # ---- I/O error failpoints of this chunk: the operation at a 'before' boundary fails
+        # (ENOSPC on open / close / replace ..., EACCES on open) and the error reaches bfg9000
+        for k in ks:
+            ev = next(e for e in bounds if e['n'] == k)
+            if ev['phase'] != 'before':
+                continue
+            rel = os.path.relpath(ev['path'], w.root)
+            for errname in (['ENOSPC', 'EACCES'] if ev['op'] == 'open' and
+                            case.get('io_errors') == 'all' else ['ENOSPC']):
+                w.restore()
+                if fresh:
+                    rc, out = w.configure(env=w.env(CRASH_AT=k, FAULT=errname))
+                else:
+                    # the documented command itself, so that its own exit status is seen (a
+                    # back end would simply run a regeneration that "succeeded" again)
+                    proj.settle()
+                    rc, out = core.run([os.path.join(core.VENV_BIN, 'bfg9000'), 'regenerate',
+                                        w.bld], cwd=w.src,
+                                       env=w.env(CRASH_AT=k, FAULT=errname), timeout=180)
+                if not any(e.get('fault') for e in w.read_trace()):
+                    res.ev('io-error-points:not-reached')
+                    continue
+                res.ev('io-error-points')
+                res.evaluations += 1
+                desc = ['io-error', errname, ev['op'], os.path.basename(rel)]
+                if rc == 0:
+                    now = w.files()
+                    res.ev('io-error-points:run-reported-success')
+                    if now != good:
+                        from .c08 import order_only
+                        bad = sorted(n for n in set(now) | set(good) if now.get(n) != good.get(n))
+                        if not order_only(now, good, bad):
+                            res.violate((backend, 'io-error', 'reported-success-with-stale-files',
+                                         ev['op'] + ':' + os.path.basename(rel).split('.tmp')[0]),
+                                        dict(wb, fault=desc, stale_files={
+                                            n: state_of(now.get(n), old.get(n), good.get(n))
+                                            for n in bad}, output=out[-400:]))
+                follow_ups('io-error', desc, [scenario, backend, case['pkgconf']] + desc, True)
         # ---- exception failpoints of this chunk
         hs = [h for h in range(1, H + 1) if h % case['nchunk'] == case['chunk']]
         for h in hs:
